@@ -27,4 +27,15 @@ MORE3 = {
         note=TB,
         tech="contract-based deductive verification (Verus): abstract view + frame postconditions; representation never appears in a postcondition",
         ref="4/C03, 3"),
+    "C06": dict(
+        text="Partial proof (Verus) for div, divmod and mod: the num-bigint functions and their malachite twins (op_div / op_div_malachite, "
+             "op_divmod / op_divmod_malachite, op_mod / op_mod_malachite, int_atom / malachite_int_atom, number / malachite_number, "
+             "new_number / new_malachite_number) are verified against the SAME contracts: same argument acceptance, same error kinds, the "
+             "result is the canonical encoding of the floored quotient / remainder of the operands' integer values, and the cost is the "
+             "documented formula plus 10 per result byte; the public operators' contracts do not mention the MALACHITE flag. modpow is NOT "
+             "under contract.",
+        note=TB + "Stated modulo the library specifications of both back ends (div_floor, mod_floor, div_mod_floor, sign, "
+             "from/to_signed_bytes_be), which are listed as assumptions: the proof shows the repository's glue code is backend-independent.",
+        tech="contract-based deductive verification (Verus): two implementations against one contract over abstract integer values",
+        ref="4/C06"),
 }
